@@ -215,6 +215,9 @@ CASES = [
     ("leeds-hh93", "leeds", "hh93", leeds_lines, {}),
     ("leeds-hh93i", "leeds", "hh93i", leeds_lines, {}),
     ("leeds-hh93-user", "leeds", "hh93", leeds_lines, {"binding": {"GCO": 855.0}, "yields": {"GCO": 0.0027, "GH2O": 0.5}}),
+    # the user's tables are changed *after* the network has been built and rendered once: the next rendering uses them
+    ("ucl-rr07x-user-late", "uclchem", "rr07x", lambda: ucl_lines() + ucl_therm_lines(), {"binding": {"#CO": 855.0, "#CH4": 1234.5}, "yields": {"#CO": 0.0027, "#H2O": 0.5}, "late": True}),
+    ("leeds-hh93-user-late", "leeds", "hh93", leeds_lines, {"binding": {"GCO": 855.0}, "yields": {"GCO": 0.0027, "GH2O": 0.5}, "late": True}),
 ]
 def table_species(n=36):
     """deterministic sample of RATE12 binding-energy species made of the elements of MASS (thorough tier)"""
@@ -279,11 +282,16 @@ def _spec(fmt, model, lines, user):
     enc = encoders.ENC[fmt]
     text = "\n".join(enc(r) for r in lines) + "\n"
     pre = []
-    if user:
+    ops = []
+    if user and user.get("late"):
+        ops.append({"op": "exec", "code": "import tempfile, shutil\n_d = tempfile.mkdtemp()\nnet.to_code(path=_d)\nshutil.rmtree(_d, ignore_errors=True)\n"
+                    "from naunet.chemistrydata import update_binding_energy, update_photon_yield\n"
+                    f"update_binding_energy({user.get('binding', {})!r})\nupdate_photon_yield({user.get('yields', {})!r})\n"})
+    elif user:
         skw = "dict(surface_prefix='G')" if fmt == "leeds" else "dict()"
         pre.append({"op": "exec", "code": "from naunet.chemistrydata import update_binding_energy, update_photon_yield\n"
                     f"update_binding_energy({user.get('binding', {})!r})\nupdate_photon_yield({user.get('yields', {})!r})\n"})
-    return {"files": [{"name": f"net.{fmt}", "content": text}], "pre": pre, "network": {"filelist": f"net.{fmt}", "fileformats": fmt, "grain_model": model}, "targets": [dict(proj.TARGETS["dense"])]}
+    return {"files": [{"name": f"net.{fmt}", "content": text}], "pre": pre, "ops": ops, "network": {"filelist": f"net.{fmt}", "fileformats": fmt, "grain_model": model}, "targets": [dict(proj.TARGETS["dense"])]}
 
 
 def _analyse(name, fmt, model, mk, user, tier, res):
